@@ -96,6 +96,28 @@ def completion_marker(ctx, cfg, fs):
             if sw_.kind == 'enum' and any(q.kind == 'param' and q.what == 'self' and 'name' in q.path for q in provenance(b, sw_.place, sw_.discr_site[0], sw_.discr_site[1], through=None)):
                 name_forks.add(o)
     ok = rets == ['True'] and bool(wrote) and name_forks >= {'Some', 'None'}
+    # ... and nothing else is a marker: an ordinary item (also one that merely starts like a marker, `--bpaf-complete-everything`)
+    # is left on the line for the parser to judge - the tokenizer drops every item for which check_next says true
+    def cm2(w, c, store):
+        if c.is_(r'OsStr::to_str$'):
+            return ('agg', 'std::option::Option', 'Some', [UNKNOWN])
+        consts = [r.what for a in c.args for r in provenance(b, a, c.bb, 'term') if r.kind == 'const' and isinstance(r.what, str)]
+        if not consts:
+            return None
+        if c.is_(r'PartialEq.*>::eq$'):
+            return ('c', False)
+        if c.is_(r'str::<impl str>::(starts_with|ends_with|contains)'):
+            return ('fork', [('c', True), ('c', False)]) if all('--bpaf-complete-'.startswith(x) for x in consts) else ('c', False)
+        if c.is_(r'str::<impl str>::strip_prefix'):
+            if all('--bpaf-complete-'.startswith(x) for x in consts):
+                return ('fork', [('agg', 'std::option::Option', 'Some', [UNKNOWN]), ('agg', 'std::option::Option', 'None', [])])
+            return ('agg', 'std::option::Option', 'None', [])
+        return None
+    cm2.first = True
+    paths2 = Walker(b, call_model=cm2, max_paths=400).run()
+    rets2 = sorted({show(p_.ret) if p_.end == 'return' else p_.end for p_ in paths2})
+    ctx.ob('K.completion-marker', 'check_next:ordinary-item-is-not-a-marker', rets2 == ['False'],
+           'for an item that is neither `--bpaf-complete-rev=..` nor a style request check_next returns %s on all %d paths (true would make the tokenizer drop the item)' % (rets2, len(paths2)), where=b.where(), cfg=cfg)
     ctx.ob('K.completion-marker', 'check_next:rev-marker-recognised-with-and-without-name', ok,
            'for an item `--bpaf-complete-rev=...` (not a style marker) check_next returns %s on all %d paths, with the program name %s; the revision is recorded on %d path(s)' % (
                rets, len(paths), sorted(name_forks), len(wrote)), where=b.where(), cfg=cfg)
